@@ -26,6 +26,13 @@ claim("C12", "The real transcoder (both iterator classes, block sizing, de-inter
       "byte b of frame f of channel c comes from the same-numbered source channel, byte-reversed iff the orders differ, and that the frame count lies "
       "between shortest and longest source.", XT + " on an index-map numpy stand-in", "DESIGN.md 2/C12")
 
+claim("C11", "Two real stream stacks of each kind the tool builds (AKAI windows in one partition, CDDA windows on the bin handle, Roland forward/reversed "
+      "windows in the data area, windows over one raw-sector view) share ONE abstract file handle. Decided as an inductive step - one seek/read of a "
+      "stream from an ARBITRARY state of every cursor below it (each layer's position/true_size and the handle position symbolic) returns the "
+      "isolated-reading bytes and leaves the sibling untouched - which covers interleavings of any length; cross-checked by enumerated 3/4-operation "
+      "schedules (streams, shared parent view, raw handle) and by the real stereo transcoder's alternating reads.",
+      XT + "; inductive step over arbitrary shared-cursor states", "DESIGN.md 2/C11")
+
 _pending = "check not built yet in this session (work in progress; see DESIGN.md section 2 for the planned obligations)"
 for _p in ["C01","C02","C03","C04","C05","C06","C07","C09","C10","C11","C12","C13","C14","C15","C16","C17","C18","C19","C20"]:
     if _p not in CHECKS:
